@@ -10,7 +10,8 @@
     of the iterable in turn): [visit]. *)
 From CM Require Export Model.PySem Model.Rewrites.
 
-Inductive kernel := KCombineSW | KCombineInst | KInvert | KGenerator | KSetLit | KHasattr.
+Inductive kernel := KCombineSW | KCombineInst | KInvert | KGenerator | KSetLit | KHasattr
+                  | KEmptySeq | KEmptySeqTest (* the expression is the test of an `if` *) | KIdentity.
 
 Definition under_binder {A} (rho : env) (x : N) (it : expr) (k : env -> list A) : list A :=
   match eval rho it with
@@ -137,10 +138,15 @@ Definition negates (a b : cmpop) : bool :=
 Definition table_ok (t : list (cmpop * cmpop)) : bool := forallb (fun ab => negates (fst ab) (snd ab)) t.
 Definition is_ordering (o : cmpop) : bool := match o with Lt | LtE | Gt | GtE => true | _ => false end.
 Definition is_set (v : value) : bool := match v with VSet _ => true | _ => false end.
-(** the two operands are not both sets and neither is NaN (whenever both evaluate) *)
+(** both operands are numbers (int / bool) or both are strings, whenever both evaluate: the builtin total orders.
+    Sets and NaN are partial orders; instances of user classes may define only some of the comparison methods
+    (`not a < b` works with `__lt__` alone, `a >= b` needs `__ge__` or a reflected `__le__`): the model's objects define
+    none, so nothing is claimed for them. *)
+Definition is_num (v : value) : bool := match num_of v with Some _ => true | None => false end.
+Definition is_strv (v : value) : bool := match v with VStr _ => true | _ => false end.
 Definition totally_ordered_operands (rho : env) (l c : expr) : bool :=
   match eval rho l, eval rho c with
-  | Val v, Val w => negb (is_set v && is_set w) && negb (is_nan v) && negb (is_nan w)
+  | Val v, Val w => (is_num v && is_num w) || (is_strv v && is_strv w)
   | _, _ => true
   end.
 Definition bool_or_raises (rho : env) (l : expr) : bool :=
@@ -242,10 +248,10 @@ Definition generator_site_classes (s : env * builtin * expr * N * expr * list ex
 (** * fix-hasattr-call *)
 Definition inst_only_call (v : value) : bool :=
   match v with VObj _ cls inst => mem_str call_attr inst && negb (mem_str call_attr cls) | _ => false end.
-Definition hasattr_node_ok (rho : env) (n : expr) : bool :=
+Definition hasattr_node_ok (cfg : hasattr_cfg) (rho : env) (n : expr) : bool :=
   match n with
   | ECall BHasattr (a :: rest) =>
-      if last_is_call_lit (a :: rest) then
+      if hasattr_fires cfg a rest then
         match rest with
         | [_] => negb (is_gen a) &&       (* generator objects are outside the value domain of the model *)
                  match eval rho a with Val v => negb (inst_only_call v) | Raise _ => true end
@@ -254,11 +260,11 @@ Definition hasattr_node_ok (rho : env) (n : expr) : bool :=
       else true
   | _ => true
   end.
-Definition hasattr_guard : env -> expr -> bool := bguard hasattr_step hasattr_node_ok.
-Definition hasattr_node_classes (rho : env) (n : expr) : list N :=
+Definition hasattr_guard (cfg : hasattr_cfg) : env -> expr -> bool := bguard (hasattr_step cfg) (hasattr_node_ok cfg).
+Definition hasattr_node_classes (cfg : hasattr_cfg) (rho : env) (n : expr) : list N :=
   match n with
   | ECall BHasattr (a :: rest) =>
-      if last_is_call_lit (a :: rest) then
+      if hasattr_fires cfg a rest then
         match rest with
         | [_] => match eval rho a with Val v => if inst_only_call v then [kf_hasattr_instance_call] else [] | Raise _ => [] end
         | _ => [kf_hasattr_arity]
@@ -269,3 +275,76 @@ Definition hasattr_node_classes (rho : env) (n : expr) : list N :=
 
 (** * lost parentheses (combine folds, invert): the printed replacement does not parse back to the tree that was built *)
 Definition parens_ok (e' : expr) : bool := paren_safe e'.
+
+(** * top-down transformers ([td f]): the nodes where the node function answers, with the environment in force there *)
+Fixpoint tvisit (f : expr -> option expr) (rho : env) (e : expr) : list (env * expr) :=
+  let vs := fix vs (es : list expr) : list (env * expr) := match es with [] => [] | a :: t => tvisit f rho a ++ vs t end in
+  match f e with
+  | Some _ => [(rho, e)]
+  | None =>
+      match e with
+      | EName _ | EConst _ | EType _ => []
+      | ETuple es | EList es | ESet es => vs es
+      | EMeth _ _ args | ECall _ args => vs args
+      | EBool _ _ l r | EFloorDiv l r => tvisit f rho l ++ tvisit f rho r
+      | ENot _ a | EJuxt _ a => tvisit f rho a
+      | ECmp _ l rest => tvisit f rho l ++
+                         (fix go (rs : list (cmpop * expr)) : list (env * expr) :=
+                            match rs with [] => [] | (_, b) :: t => tvisit f rho b ++ go t end) rest
+      | EListComp elt x it | EGen _ elt x it =>
+          tvisit f rho it ++ under_binder rho x it (fun rho' => tvisit f rho' elt)
+      end
+  end.
+Definition tguard (f : expr -> option expr) (ok : env -> expr -> bool) (rho : env) (e : expr) : bool :=
+  forallb (fun rn => ok (fst rn) (snd rn)) (tvisit f rho e).
+
+Definition kf_empty_seq_other_type : N := 14.    (* x == [] -> not x, x not a list (x == () -> not x, x not a tuple) *)
+Definition kf_empty_seq_lost_parens : N := 15.   (* pinned: the new `not x` dropped the comparison's parentheses *)
+Definition kf_identity_differs : N := 16.        (* x is <literal> -> x == <literal>: identity and equality disagree *)
+
+(** * fix-empty-sequence-comparison: what an observer of the rewritten position sees: the value, or, for the test of an `if`,
+    only its truth value *)
+Definition test_obs (r : result) : result := match r with Val v => Val (VBool (truthy v)) | Raise x => Raise x end.
+(** the compared value is of the literal's own type (a list for `[]`, a tuple for `()`), or its evaluation raises *)
+Definition same_kind (rho : env) (lt x : expr) : bool :=
+  match eval rho x with
+  | Val (VList _) => match lt with EList _ => true | _ => false end
+  | Val (VTuple _) => match lt with ETuple _ => true | _ => false end
+  | Val _ => false
+  | Raise OutOfModel => false        (* the model declines: nothing is claimed *)
+  | Raise _ => true
+  end.
+Definition empty_seq_action_ok (rho : env) (a : es_action) : bool :=
+  match a with
+  | ES_not _ lt x | ES_bool lt x | ES_bare lt x => same_kind rho lt x
+  | ES_none | ES_raises => true
+  end.
+Definition empty_seq_node_ok (rho : env) (n : expr) : bool := empty_seq_action_ok rho (empty_seq_action false n).
+Definition empty_seq_guard (cfg : empty_seq_cfg) (in_test : bool) (rho : env) (e : expr) : bool :=
+  match e with
+  | ECmp _ _ _ => empty_seq_action_ok rho (empty_seq_action in_test e)
+  | _ => tguard (empty_seq_f cfg) empty_seq_node_ok rho e
+  end.
+Definition empty_seq_classes (cfg : empty_seq_cfg) (in_test : bool) (rho : env) (e : expr) : list N :=
+  let sites := match e with
+               | ECmp _ _ _ => [(rho, empty_seq_action in_test e)]
+               | _ => map (fun rn => (fst rn, empty_seq_action false (snd rn))) (tvisit (empty_seq_f cfg) rho e)
+               end in
+  if existsb (fun ra => negb (empty_seq_action_ok (fst ra) (snd ra))) sites then [kf_empty_seq_other_type] else [].
+
+(** * literal-or-new-object-identity: at every rewritten comparison `is` and `==` (`is not` and `!=`) give the same answer *)
+Definition cres_eqb (a b : cres) : bool :=
+  match a, b with CB x, CB y => Bool.eqb x y | CX x, CX y => exn_eqb x y | _, _ => false end.
+Definition identity_node_ok (rho : env) (n : expr) : bool :=
+  match n, identity_f n with
+  | ECmp _ l [(o, c)], Some (ECmp _ _ [(o', _)]) =>
+      match eval rho l, eval rho c with
+      | Val v, Val w => cres_eqb (cmp_op o v w) (cmp_op o' v w)
+      | Raise OutOfModel, _ | _, Raise OutOfModel => false      (* the model declines: nothing is claimed *)
+      | _, _ => true
+      end
+  | _, _ => true
+  end.
+Definition identity_guard : env -> expr -> bool := tguard identity_f identity_node_ok.
+Definition identity_classes (rho : env) (e : expr) : list N :=
+  if forallb (fun rn => identity_node_ok (fst rn) (snd rn)) (tvisit identity_f rho e) then [] else [kf_identity_differs].
